@@ -172,13 +172,33 @@ class Check:
         pr['cone'] = sorted(c[:-1] for c in cone)
         stmts = re.compile(r'^\s*(Lemma|Theorem|Corollary|Example|Fact|Remark|Proposition|Instance)\s+(\w+)', re.M)
         obl, dis, bad = 0, 0, []
+        memo = {}
+
+        def fresh(vf):
+            # a compiled file counts only if it is newer than its source and than the (fresh) compiled
+            # files it depends on: after a failed `make` the old .vo of a broken file is still there
+            if vf in memo:
+                return memo[vf]
+            memo[vf] = False
+            vo = COQ + '/' + vf + 'o'
+            ok = os.path.exists(vo) and os.path.getmtime(vo) >= os.path.getmtime(COQ + '/' + vf)
+            if ok:
+                for d in deps.get(vf + 'o', []):
+                    dv = d[:-1]
+                    if not os.path.exists(COQ + '/' + dv):
+                        continue    # library outside the development
+                    if not fresh(dv) or os.path.getmtime(COQ + '/' + d) > os.path.getmtime(vo):
+                        ok = False
+                        break
+            memo[vf] = ok
+            return ok
+
         for vf in pr['cone']:
             src = open(COQ + '/' + vf).read()
             nocom = re.sub(r'\(\*.*?\*\)', '', src, flags=re.S)
             n = len(stmts.findall(nocom))
             obl += n
-            vo = COQ + '/' + vf + 'o'
-            if os.path.exists(vo) and os.path.getmtime(vo) >= os.path.getmtime(COQ + '/' + vf):
+            if fresh(vf):
                 dis += n
             else:
                 bad.append(vf)
@@ -188,6 +208,11 @@ class Check:
                     continue
                 bad.append('%s: forbidden "%s"' % (vf, m.group(0)))
         pr['obligations'], pr['discharged'], pr['bad'] = obl, dis, bad
+        # second tie (translator): when the obligations about the code generated from the Go source no longer
+        # check, look for a concrete input on which generated code and hand model differ
+        if 'theories/GenLeafProofs.v' in pr['cone'] and any('GenLeaf' in b for b in bad):
+            rc3, lout, lerr = sh(['python3', V + '/bin/leaf-search'], timeout=600)
+            pr['leaf_diff'] = [l for l in lout.split('\n') if l.startswith('LEAF-DIFF')]
         # Print Assumptions: recompile the property file alone, capture output
         rc, out, err = sh('coqc -Q theories Arsenal -Q Props Arsenal.Props Props/%s.v' % self.pid, cwd=COQ, timeout=1800)
         pr['assumptions'] = out.strip()
@@ -724,7 +749,7 @@ class Check:
             rcode = 1
         elif proof_broken:
             rp = '%s/replays/%s-proof.txt' % (V, pid)
-            open(rp, 'w').write('# %s: proof obligation no longer checks; no failing input found by the search\n%s\n%s\n' % (pid, json.dumps({k: pr.get(k) for k in ('bad', 'axioms', 'missing')}, indent=1), pr.get('log', '')))
+            open(rp, 'w').write('# %s: proof obligation no longer checks; no failing input found by the search\n%s\n%s\n' % (pid, json.dumps({k: pr.get(k) for k in ('bad', 'axioms', 'missing', 'leaf_diff')}, indent=1), pr.get('log', '')))
             print('VIOLATION property=%s replay=%s no-failing-input-found' % (pid, rp))
             rcode = 1
         elif notfound:
@@ -774,6 +799,7 @@ class Check:
                 'Coq 8.16.1 kernel (coqc); vm_compute used for the in-Coq correspondence sample and finite sweeps; native_compute not used',
                 'Print Assumptions of Props/%s.v on this run: %s' % (self.pid, (pr.get('assumptions') or 'n/a').replace('\n', ' | ')[:600]),
                 'coqchk (thorough tier only): %s' % pr.get('coqchk', 'not run in this tier'),
+                'translator tools/go2coq (Go AST -> Gallina with explicit Go integer semantics coq/theories/GoSem.v) for the leaf functions listed in tools/go2coq/funcs.txt; regenerated on every run into coq/theories/GenLeaf.v; equivalence with the hand model proved in GenLeafProofs.v (in the cone of this property: %s)' % ('theories/GenLeafProofs.v' in pr.get('cone', [])),
                 'extraction: ExtrOcamlBasic only (bool, option, unit, list, prod, sumbool + inlined andb/orb/negb), Z/N/positive kept as extracted inductives, no Extract Constant of our own; OCaml 4.13.1; hand-written ocaml/driver.ml (parsing, int<->Z, printing, allocation-number table)',
                 'correspondence check: Go harness harness/cmd/muh (generators, projection of observables, oracles) + line diff in bin/checklib.py; covers only the histories it runs',
                 'model files in the cone of Props/%s.v: %s' % (self.pid, ', '.join(pr.get('cone', []))),
